@@ -25,7 +25,7 @@ Inductive unop := Plus | Negate | Complement | Not.
 
 Inductive bkind := BooleanCombine | BooleanFromEqualWidth | EqualWidth | EqualWidthWeak.
 
-Inductive tier_kind := TLeft | TNonAssoc | TIn | TBad.
+Inductive tier_kind := KLeft | KNonAssoc | KIn | KBad.
 
 Inductive expr :=
 | EConst (v : wval)
